@@ -27,14 +27,18 @@ Gen<int> wel(std::initializer_list<std::pair<std::size_t, int>> pairs) { return 
 namespace {
 
 // raw vertex argument: small values dominate (they are reduced modulo the current size)
-Gen<int> gVtx() { return gen::resize(kNominalSize, gen::weightedOneOf<int>({{8, uni(0, 6)}, {2, uni(0, 40)}})); }
+Gen<int> gVtx() { return gen::resize(kNominalSize, gen::weightedOneOf<int>({{8, uni(0, 6)}, {2, uni(0, 40)}, {2, uni(0, 140)}})); }
 // pair selection mode: 0 raw, 1 existing edge (orientation by parity of b), 2 existing edge flipped, 3 self-loop
 Gen<int> gMode() { return wel({{6, 0}, {3, 1}, {1, 3}, {1, 2}}); }
 
-std::string exactWeight(int k) {
-    // k/8 printed exactly (at most three decimals)
+std::string exactWeight(int k, int wexp = 0) {
+    // k/8 * 2^wexp: every such weight and every partial sum of < 2^30 of them is exactly representable;
+    // 17 significant digits round-trip through strtod
     char b[64];
-    std::snprintf(b, sizeof b, "%.3f", k / 8.0);
+    if (wexp == 0)
+        std::snprintf(b, sizeof b, "%.3f", k / 8.0);
+    else
+        std::snprintf(b, sizeof b, "%.17g", std::ldexp(k / 8.0, wexp));
     return b;
 }
 std::string roundedWeight(int sign, int e, int frac) {
@@ -48,10 +52,10 @@ std::string roundedWeight(int sign, int e, int frac) {
     return b;
 }
 
-Gen<std::string> gWeight(bool exact, bool nonneg = false) {
+Gen<std::string> gWeight(bool exact, bool nonneg = false, int wexp = 0) {
     if (exact)
         return gen::map(gen::resize(kNominalSize, gen::weightedOneOf<int>({{6, uni(-40, 41)}, {1, gen::just(0)}, {3, uni(-65536, 65537)}})),
-                        [nonneg](int k) { return exactWeight(nonneg && k < 0 ? -k : k); });
+                        [nonneg, wexp](int k) { return exactWeight(nonneg && k < 0 ? -k : k, wexp); });
     return gen::map(gen::tuple(uni(0, 2), uni(-10, 10), uni(0, 1048576)), [nonneg](const std::tuple<int, int, int> &t) {
         return roundedWeight(nonneg ? 0 : std::get<0>(t), std::get<1>(t), std::get<2>(t));
     });
@@ -69,13 +73,14 @@ struct HistCfg {
     bool nolabel;
     int forcePct;
     bool exact;
+    int wexp = 0;   // exact mode: weights are k/8 * 2^wexp (0, -62: all far below machine epsilon, +40: large)
 };
 
 Gen<Op> gOpOfKind(const std::string &kind, const HistCfg &h) {
     auto force = gen::map(uni(0, 100), [h](int r) { return r < h.forcePct ? 1 : 0; });
     if (kind == "add") {
         if (h.fam == 'W')
-            return gen::map(gen::tuple(gVtx(), gVtx(), gMode(), gWeight(h.exact), force),
+            return gen::map(gen::tuple(gVtx(), gVtx(), gMode(), gWeight(h.exact, false, h.wexp), force),
                             [](const std::tuple<int, int, int, std::string, int> &t) {
                                 return mkOp("add", {S(std::get<0>(t)), S(std::get<1>(t)), S(std::get<2>(t)), std::get<3>(t), S(std::get<4>(t))});
                             });
@@ -117,7 +122,7 @@ Gen<Op> gOpOfKind(const std::string &kind, const HistCfg &h) {
             return mkOp("setm", {S(std::get<0>(t)), S(std::get<1>(t)), S(std::get<2>(t)), S(std::get<3>(t))});
         });
     if (kind == "setw")
-        return gen::map(gen::tuple(gVtx(), gVtx(), gMode(), gWeight(h.exact)), [](const std::tuple<int, int, int, std::string> &t) {
+        return gen::map(gen::tuple(gVtx(), gVtx(), gMode(), gWeight(h.exact, false, h.wexp)), [](const std::tuple<int, int, int, std::string> &t) {
             return mkOp("setw", {S(std::get<0>(t)), S(std::get<1>(t)), S(std::get<2>(t)), std::get<3>(t)});
         });
     if (kind == "setl")
@@ -139,6 +144,18 @@ Gen<Op> gOpOfKind(const std::string &kind, const HistCfg &h) {
     if (kind == "shrink")
         return gen::map(uni(0, 12), [](int k) { return mkOp("shrink", {S(k)}); });
     throw std::runtime_error("unknown op kind in mix: " + kind);
+}
+
+// trailing "alias": the executor passes the vertex arguments as references into the graph's own neighbour lists
+Gen<Op> withAlias(Gen<Op> g) {
+    return gen::map(gen::tuple(std::move(g), wel({{6, 0}, {1, 1}, {1, 2}})), [](const std::tuple<Op, int> &t) {
+        Op o = std::get<0>(t);
+        if (std::get<1>(t) == 1)
+            o.a.push_back("alias");
+        else if (std::get<1>(t) == 2)
+            o.a.push_back("alias2");
+        return o;
+    });
 }
 
 Gen<int> gN0() {
@@ -164,6 +181,7 @@ Gen<Case> makeHistGen(const Cfg &cfg) {
     bool bigmult = cfgInt(cfg, "bigmult", 0) != 0;
     std::string labelsets = cfgGet(cfg, "labelsets", "");
     int zeroPct = (int)cfgInt(cfg, "zero_pct", 0);
+    int bignPct = (int)cfgInt(cfg, "bign_pct", 0);
 
     return gen::exec([=]() {
         std::string cl = *gen::resize(kNominalSize, gen::elementOf(classes));
@@ -174,6 +192,8 @@ Gen<Case> makeHistGen(const Cfg &cfg) {
         h.nolabel = parts[0][1] == 'S';
         h.forcePct = forcePct;
         h.exact = mode == "exact" ? true : mode == "rounded" ? false : *gen::arbitrary<bool>();
+        if (h.fam == 'W' && h.exact)
+            h.wexp = *wel({{7, 0}, {2, -62}, {1, 40}});
         std::vector<std::pair<std::size_t, Gen<Op>>> gens;
         for (auto &m : mix) {
             // ops that do not exist for the class are left out of the mix
@@ -187,7 +207,8 @@ Gen<Case> makeHistGen(const Cfg &cfg) {
                 continue;
             if (m.second == "setl" && (h.fam != 'L' || h.nolabel))
                 continue;
-            gens.emplace_back((std::size_t)m.first, gOpOfKind(m.second, h));
+            bool aliasable = m.second == "rm" || m.second == "rmk" || m.second == "setm" || m.second == "rmvtx";
+            gens.emplace_back((std::size_t)m.first, aliasable ? withAlias(gOpOfKind(m.second, h)) : gOpOfKind(m.second, h));
         }
         Case c;
         c.set("prop", prop);
@@ -201,7 +222,13 @@ Gen<Case> makeHistGen(const Cfg &cfg) {
             c.set("bigmult", "1");
         if (!labelsets.empty())
             c.set("labelsets", labelsets);
-        c.set("n0", S(*uni(0, 100) < zeroPct ? 0 : *gN0()));
+        bool big = bignPct > 0 && *uni(0, 100) < bignPct;
+        if (big) {
+            // graphs with 33..70 vertices (bit-mask "fast paths", word-size effects); vertex arguments then use the whole range
+            c.set("bign", "1");
+            c.set("n0", S(*uni(33, 71)));
+        } else
+            c.set("n0", S(*uni(0, 100) < zeroPct ? 0 : *gN0()));
         // weighted choice among the op generators (weightedOneOf only takes a literal list)
         std::size_t total = 0;
         for (auto &g : gens)
@@ -243,6 +270,8 @@ Gen<Case> makeEqGen(const Cfg &cfg) {
         // weighted classes: half of the cases use weights whose sums are NOT exactly representable, so that the
         // running totals of two histories of the same graph differ in their last bits
         h.exact = h.fam == 'W' ? *gen::arbitrary<bool>() : true;
+        if (h.fam == 'W' && h.exact)
+            h.wexp = *wel({{7, 0}, {2, -62}, {1, 40}});
         std::vector<std::pair<std::size_t, Gen<Op>>> gens;
         std::size_t total = 0;
         for (auto &m : mix) {
@@ -288,9 +317,11 @@ Gen<Case> makeEqGen(const Cfg &cfg) {
         c.set("prop", "C06");
         c.set("class", parts[0]);
         c.set("label", parts.size() > 1 ? parts[1] : "none");
-        if (h.fam == 'W')
+        if (h.fam == 'W') {
             c.set("mode", h.exact ? "exact" : "rounded");
-        int scenario = *wel({{3, 0}, {3, 1}, {2, 2}, {2, 3}});
+            c.set("wexp", S(h.wexp));
+        }
+        int scenario = *wel({{3, 0}, {3, 1}, {2, 2}, {2, 3}, {2, 4}});
         c.set("scenario", std::string(1, char('a' + scenario)));
         int n0 = *gN0();
         std::vector<Op> ops;
@@ -306,6 +337,23 @@ Gen<Case> makeEqGen(const Cfg &cfg) {
                 extra.target = *uni(0, 2);
                 ops.push_back(extra);
             }
+        } else if (scenario == 4) {
+            // (e) same value, then ONE EDGE MOVED: remove an existing edge and add another pair (often a self-loop)
+            //     - same vertex count, same edge count, different edge set
+            c.set("n0", S(n0));
+            c.set("n1", S(n0));
+            append(withTarget(*gen::container<std::vector<Op>>(opg), 0));
+            ops.push_back(rebuildOp(0));
+            int t = *uni(0, 2);
+            Op rm = mkOp("rm", {S(*uni(0, 40)), S(*uni(0, 2)), "1"});
+            if (h.fam == 'M')
+                rm = mkOp("setm", {S(*uni(0, 40)), S(*uni(0, 2)), "1", "0"});
+            rm.target = t;
+            ops.push_back(rm);
+            Op add = *gOpOfKind("add", h);
+            add.a[2] = S(*wel({{2, 0}, {2, 3}})); // raw pair or self-loop
+            add.target = t;
+            ops.push_back(add);
         } else if (scenario == 2) {
             // (c) independent small histories: equal by chance and unequal both occur
             c.set("n0", S(*uni(0, 4)));
